@@ -39,9 +39,28 @@ def generate(seed, tier, ncases=None):
                 if not dup:
                     pool.remove(k)
                 g.nodes[nd]["aam"] = k
+        if op != "init" and g.number_of_nodes() >= 5 and rng.random() < 0.2:
+            # "looks like a gapless block" family: k existing numbers (with repeats) spanning exactly k consecutive
+            # values, i.e. max - min + 1 == k although some value inside the span is unused
+            nodes = list(g.nodes)
+            for nd in nodes:
+                g.nodes[nd].pop("aam", None)
+            k = rng.randint(3, max(3, g.number_of_nodes() - 2))
+            m = rng.choice([1, 1, 2, 5, 0, -3])
+            inner = list(range(m + 1, m + k - 1))
+            gap = rng.choice(inner)
+            vals = [m, m + k - 1] + [rng.choice([v for v in range(m, m + k) if v != gap]) for _ in range(k - 2)]
+            rng.shuffle(vals)
+            for nd, v in zip(rng.sample(nodes, k), vals):
+                g.nodes[nd]["aam"] = v
         off = None
         if op == "complete":
-            off = rng.choice([None, "min", rng.randint(-3, 12), 1, 0])
+            off = rng.choice([None, "min", "min", rng.randint(-3, 12), 1, 0])
+            if rng.random() < 0.15:
+                # an explicit start just above the LAST mapped node's number but not above every number
+                have = [g.nodes[nd]["aam"] for nd in g.nodes if "aam" in g.nodes[nd]]
+                if have:
+                    off = have[-1] + rng.choice([0, 1, 1, 2])
         elif op == "init":
             off = rng.choice([1, 1, 0, rng.randint(-5, 30)])
         yield {"op": op, "graph": g, "offset": off, "scheme": scheme}
